@@ -6,6 +6,7 @@ for d in seeded/${1:-C*}/; do
   id=$(basename $d)
   [ -f $d/meta.json ] || continue
   own=$(/venv/bin/python -c "import json,sys; m=json.load(open('$d/meta.json')); c=m['caught_by']; p=m['property']; print(p if p in c else (c[0] if c else '-'))")
+  /venv/bin/python -c "import json,sys; sys.exit(0 if json.load(open('$d/meta.json')).get('neutralised_by_later_fix') else 1)" && { echo "$id - made harmless by a later fix in /repo (see meta.json)"; continue; }
   [ "$own" = "-" ] && { echo "$id - kept although no check reports it (reasons in meta.json)"; continue; }
   out=$(./tools_seed_eval.sh $PWD/$d/patch.diff $own 2>&1)
   ap=$(/venv/bin/python -c "import json; print(json.load(open('$d/meta.json')).get('applies_to'))")
